@@ -45,12 +45,12 @@ type jv struct {
 	mem  []jm
 }
 
-func jZ() *jv              { return &jv{kind: 'z'} }
-func jT() *jv              { return &jv{kind: 't'} }
-func jN(lit string) *jv    { return &jv{kind: 'n', lit: lit} }
-func jS(s string) *jv      { return &jv{kind: 's', str: s} }
-func jA(es ...*jv) *jv     { return &jv{kind: '[', arr: es} }
-func jO(ms ...jm) *jv      { return &jv{kind: '{', mem: ms} }
+func jZ() *jv               { return &jv{kind: 'z'} }
+func jT() *jv               { return &jv{kind: 't'} }
+func jN(lit string) *jv     { return &jv{kind: 'n', lit: lit} }
+func jS(s string) *jv       { return &jv{kind: 's', str: s} }
+func jA(es ...*jv) *jv      { return &jv{kind: '[', arr: es} }
+func jO(ms ...jm) *jv       { return &jv{kind: '{', mem: ms} }
 func jM(n string, v *jv) jm { return jm{n, v} }
 
 func jvParse(data []byte) (*jv, bool) {
@@ -291,7 +291,9 @@ func jmJoin(set map[string]bool) string {
 	for e := range set {
 		es = append(es, e)
 	}
-	sort.Strings(es)
+	// sorted by the hex key (the part before '='), as strings
+	key := func(e string) string { return e[:strings.IndexByte(e, '=')] }
+	sort.Slice(es, func(i, j int) bool { return key(es[i]) < key(es[j]) })
 	return strings.Join(es, ",")
 }
 
